@@ -5112,6 +5112,11 @@ where
             return Ok(0);
         };
 
+        // Transactional guard: the post-removal flip repair can fail. If it does, roll back so
+        // that an `Err` leaves the triangulation unchanged (same contract as `insert`).
+        let snapshot = (self.insertion_state.delaunay_repair_policy != DelaunayRepairPolicy::Never)
+            .then(|| self.tri.tds.clone());
+
         // Fast path: inverse k=1 flip when the vertex star is a simplex.
         let mut seed_cells: Option<CellKeyBuffer> = None;
         let cells_removed = match apply_bistellar_flip_k1_inverse(
@@ -5139,11 +5144,15 @@ where
         if self.should_run_delaunay_repair_for(topology, 0) {
             let seed_ref = seed_cells.as_deref();
             let (tds, kernel) = (&mut self.tri.tds, &self.tri.kernel);
-            repair_delaunay_with_flips_k2_k3(tds, kernel, seed_ref, topology).map_err(|e| {
-                TdsValidationError::InconsistentDataStructure {
+            if let Err(e) = repair_delaunay_with_flips_k2_k3(tds, kernel, seed_ref, topology) {
+                if let Some(tds) = snapshot {
+                    self.tri.tds = tds;
+                }
+                return Err(TdsValidationError::InconsistentDataStructure {
                     message: format!("Delaunay repair failed after vertex removal: {e}"),
                 }
-            })?;
+                .into());
+            }
         }
 
         Ok(cells_removed)
